@@ -574,5 +574,21 @@ fn main() {
         shapes.insert(f.to_string(), fn_shapes(&format!("{}/{}", repo, f)));
     }
     root.insert("shapes".into(), Value::Object(shapes));
+    // match arms of `encode_io_error_kind` (src/lib.rs)
+    {
+        let path = format!("{}/src/lib.rs", repo);
+        let src = fs::read_to_string(&path).unwrap_or_default();
+        let mut arms = Value::Array(vec![]);
+        if let Ok(file) = syn::parse_file(&src) {
+            for item in &file.items {
+                if let syn::Item::Fn(f) = item {
+                    if f.sig.ident == "encode_io_error_kind" {
+                        arms = match_arms(&f.block);
+                    }
+                }
+            }
+        }
+        root.insert("encode_arms".into(), arms);
+    }
     fs::write(&outp, serde_json::to_string_pretty(&Value::Object(root)).unwrap()).unwrap();
 }
